@@ -32,7 +32,18 @@ type C11TransportCase struct {
 }
 
 func genHostileChunk(t *rapid.T) []byte {
-	switch rapid.IntRange(0, 7).Draw(t, "chunkKind") {
+	switch kind := rapid.IntRange(0, 9).Draw(t, "chunkKind"); kind {
+	case 8, 9:
+		// several complete messages in one piece: more than the handler's queue holds;
+		// kind 9: right behind a frame without MsgType, in the same piece
+		var b []byte
+		if kind == 9 {
+			b = (&rig.InMsg{Type: "", Seq: "9", Damage: "no-msgtype"}).Bytes()
+		}
+		for i := rapid.IntRange(2, 6).Draw(t, "burstN"); i > 0; i-- {
+			b = append(b, (&rig.InMsg{Type: rapid.SampledFrom([]string{"0", "1", "D"}).Draw(t, "burstType"), Seq: fmt.Sprint(10 + i), Fields: []rig.Tok{rig.F("112", "b")}}).Bytes()...)
+		}
+		return b
 	case 0:
 		return []byte(rapid.StringMatching(`\x01{1,4}`).Draw(t, "sohs"))
 	case 1:
@@ -76,6 +87,7 @@ func checkC11Transport(c *C11TransportCase, rec *evid.Rec) (vs []pbt.Violation) 
 	defer pbt.ClearRecord()
 	delivered := 0
 	served := true
+	left := ""
 	_, trouble := rig.Bubble(outerT, func() {
 		store := memory.NewStorage()
 		cfg := rig.Cfg{Role: "acceptor", HBMin: 1, HBMax: 60, HBInt: 30, Methods: []string{"0"}, Approve: "all", CloseTimeoutMs: 100, Buf: 1,
@@ -120,7 +132,9 @@ func checkC11Transport(c *C11TransportCase, rec *evid.Rec) (vs []pbt.Violation) 
 		if ar != nil {
 			ar.A.Close()
 			time.Sleep(rig.Settle(30))
+			synctest.Wait()
 			served = ar.Returned()
+			left = rig.Stacks() // everything is closed: no goroutine of the library may remain
 		} else {
 			// the peer has closed: the initiator's serving call must come back by itself
 			time.Sleep(rig.Settle(30))
@@ -150,6 +164,13 @@ func checkC11Transport(c *C11TransportCase, rec *evid.Rec) (vs []pbt.Violation) 
 		rec.Hist("transport:message-reached-handler")
 	}
 	rec.Hist("transport:role:" + map[bool]string{true: "initiator", false: "acceptor"}[c.Role == "initiator"])
+	if left != "" && served {
+		var s []string
+		for _, ch := range c.Chunks {
+			s = append(s, ref.Show(ch))
+		}
+		return []pbt.Violation{pbt.V("transport:inbound-path-stuck:goroutines-left", "after these bytes, the peer's close and the acceptor's Close, goroutines of the inbound path remain:\n%s\nbytes: %v", left, s)}
+	}
 	if !served {
 		var s []string
 		for _, ch := range c.Chunks {
